@@ -311,7 +311,7 @@ func generate(r *ev.Run, a *artefact, d donors, rng *gen.Rand, fullFieldEdits bo
 		}
 	}
 
-	// 2. truncations (every length 0..len-1; quick: every region boundary ±1 and a quota of others)
+	// 2. truncations (every length 0..len-1; quick: every region boundary -1/0/+1 and a quota of others)
 	truncClass := func(n int) string {
 		if n == 0 {
 			return "truncate@empty"
@@ -325,7 +325,8 @@ func generate(r *ev.Run, a *artefact, d donors, rng *gen.Rand, fullFieldEdits bo
 	} else {
 		seen := map[int]bool{0: true, 1: true, len(y) - 1: true}
 		for _, rg := range rs {
-			for _, n := range []int{rg.off, rg.off + 1} {
+			// one byte short of a region boundary, the boundary, one past it (a parser that needs "size + 1" bytes and asks for "size")
+			for _, n := range []int{rg.off - 1, rg.off, rg.off + 1} {
 				if n >= 0 && n < len(y) {
 					seen[n] = true
 				}
